@@ -236,9 +236,9 @@ type Response struct {
 	ValidateErr string       `json:"validate_err,omitempty"`
 	Errors      []BuildError `json:"errors,omitempty"`
 	// equals
-	HasEquals bool `json:"has_equals,omitempty"`
-	Equal     bool `json:"equal,omitempty"`
-	EqualRev  bool `json:"equal_rev,omitempty"`
+	HasEquals bool   `json:"has_equals,omitempty"`
+	Equal     bool   `json:"equal,omitempty"`
+	EqualRev  bool   `json:"equal_rev,omitempty"`
 	Encoded2  string `json:"encoded2,omitempty"`
 	// default
 	HasCtor bool `json:"has_ctor,omitempty"`
